@@ -340,3 +340,56 @@ func mwNearEqual(rng *rand.Rand, n1, n2 int) ([]float64, []float64) {
 	rng.Shuffle(n, func(i, j int) { pool[i], pool[j] = pool[j], pool[i] })
 	return append([]float64{}, pool[:n1]...), append([]float64{}, pool[n1:]...)
 }
+
+// mwSignedZeros (seeded C03-8 class, group hK): pools that contain BOTH zeros of float64, -0.0 and +0.0.
+// They are ONE real number: they tie with each other (pair count 1/2, one group of the tie vector), a pool made
+// of zeros of mixed sign is "all values equal" (ErrSamplesEqual), swapping / reordering the samples must not
+// tell them apart. A rank pass that groups by bit pattern (math.Float64bits) instead of == splits them:
+// {-0,1,3} vs {0,2} then gives U = 4 instead of 3.5. The values travel as bit patterns (Line.F; F64 writes -0 as
+// the JSON string "-0"), the model decodes both patterns to the rational 0.
+// The first pairs are fixed witnesses (zeros inside one sample, across the samples, all-zero pools of mixed
+// sign, zeros next to the smallest denormals); the rest is random: a zero-heavy pool of -0, +0, +-5e-324,
+// +-1e-310 and a few ordinary values dealt to the two samples.
+func mwSignedZeros(rng *rand.Rand, random int, maxN int) [][2][]float64 {
+	nz := math.Copysign(0, -1)
+	d := 5e-324
+	out := [][2][]float64{
+		{{nz, 1, 3}, {0, 2}},
+		{{0, 1, 3}, {nz, 2}},
+		{{0, 0}, {nz, nz}},
+		{{nz}, {0}},
+		{{0}, {nz}},
+		{{nz, 0}, {1}},
+		{{nz, 0}, {0, nz}},
+		{{0, nz, nz}, {0, nz}},
+		{{nz, 0, nz, 0, 0}, {nz}},
+		{{nz, d, -d}, {0, d}},
+		{{0, -d}, {nz, d, nz}},
+		{{nz, -1, 2}, {0, 0, nz, 1}},
+		{{-d, nz, d, 0}, {nz, 0, -d, d}},
+		{{1, 2, nz}, {0, 3, 4, 5}},
+	}
+	vals := []float64{nz, 0, nz, 0, d, -d, 1e-310, -1e-310, 1, -1, 2, 3}
+	for it := 0; it < random; it++ {
+		n1, n2 := 1+rng.Intn(maxN), 1+rng.Intn(maxN)
+		k := len(vals)
+		switch it % 4 {
+		case 0:
+			k = 2 // zeros only, mixed sign: all pooled values are equal
+		case 1:
+			k = 6 // zeros and the smallest denormals
+		}
+		pool := make([]float64, n1+n2)
+		for i := range pool {
+			pool[i] = vals[rng.Intn(k)]
+		}
+		// make sure both zeros are there whenever there is room
+		if len(pool) >= 2 {
+			i := rng.Intn(len(pool))
+			j := (i + 1 + rng.Intn(len(pool)-1)) % len(pool)
+			pool[i], pool[j] = nz, 0
+		}
+		out = append(out, [2][]float64{append([]float64{}, pool[:n1]...), append([]float64{}, pool[n1:]...)})
+	}
+	return out
+}
